@@ -24,7 +24,12 @@ RULE = ("cases: every TimeEvoMode x dimension 1..12 (each pair at least once Her
         "non-Hermitian) plus random draws; psi of a random tensor shape (ordered factorisation of n "
         "with inserted dimension-1 axes, 0-d for n=1), complex or real dtype, real or complex H, "
         "t from {0, 1e-3, 0.1, 0.5, 1, U(0,2)}, ||H||_2 in [0.3,1.5], both directions; plus direct "
-        "fast_exp_action calls incl. 'none' and unknown mode strings. non-trivial = distinct "
+        "fast_exp_action calls incl. 'none' and unknown mode strings, also with the mode argument omitted and "
+        "real / int / read-only vectors. Input-space audit axes (one or two per case, ~330 cases): call forms of "
+        "time_evolve (defaults omitted / keywords), forward as int / numpy.bool_, duration as int / numpy.float64 / "
+        "numpy.float32, psi int64 / float32 / complex64 / read-only / zero / scaled by 1e-8..1e+8, H int64 / float32 / "
+        "complex64 / Fortran / transposed / strided view / read-only / zero / 1e-8 / ||H|| t up to 30 (non-ODE modes), "
+        "dimensions 16, 24, 32; TimeEvoMode.is_scipy / fastest_equivalent / str on every member. non-trivial = distinct "
         "(mode, n, shape, herm, direction, t>0, dtype) whose route is not the default expm_multiply "
         "on a flat complex vector")
 PARTIAL = ["accuracy of scipy expm / expm_multiply / sparse expm / solve_ivp is by contract "
@@ -181,8 +186,62 @@ def _mk_case(rng, mode=None, n=None, herm=None):
             "seed": rng.randrange(10 ** 9)}
 
 
+def _audit_axes(case, arng, force=None):
+    """Input-space audit axes (separate generator stream).  One or two axes per case, so that a failure names its
+    regime; `force` selects the first axis."""
+    ode = case["mode"] in SCIPY_MODES
+    axes = ["call", "fwd_type", "t_type", "psi_dtype", "psi_ro", "h_dtype", "h_layout", "mag", "hscale", "zero_psi",
+            "big_n"]
+    chosen = [force] if force else []
+    while len(chosen) < arng.choice([1, 1, 2]):
+        a = arng.choice(axes)
+        if a not in chosen:
+            chosen.append(a)
+    for a in chosen:
+        if a == "call":
+            # "omit": every argument that equals its documented default (forward=True, mode=FASTEST) is left out
+            if arng.random() < 0.6:
+                case["mode"] = arng.choice(["fastest", "fastest", case["mode"]])
+                case["forward"] = arng.random() < 0.7
+                case["call"] = "omit"
+            else:
+                case["call"] = arng.choice(["kw", "allkw"])
+        elif a == "fwd_type":
+            case["fwd_type"] = arng.choice(["int", "npbool"])
+        elif a == "t_type" and case.get("h_dtype") != "int":
+            case["t_type"] = arng.choice(["int", "np64", "np32"])
+            case["t"] = {"int": arng.choice([0, 1, 2]), "np64": case["t"], "np32": arng.choice([0.5, 0.25, 1.5, 0.0])}[
+                case["t_type"]]
+        elif a == "psi_dtype":
+            case["psi_dtype"] = arng.choice(["int", "f32", "c64"])
+            case["real_psi"] = False
+        elif a == "psi_ro":
+            case["psi_ro"] = 1
+        elif a == "h_dtype":
+            case["h_dtype"] = arng.choice(["int", "f32", "c64"])
+            if case["h_dtype"] == "int":        # ||H|| is what it is: keep ||H|| t moderate through the duration
+                case.pop("t_type", None)
+                case["t"] = min(float(case["t"]), 0.25)
+        elif a == "h_layout":
+            case["h_layout"] = arng.choice(["F", "view", "ro", "T"])
+        elif a == "mag":
+            case["mag"] = arng.choice([8, 6] if ode else [8, 6, -6, -8])
+        elif a == "hscale":
+            case["hscale"] = arng.choice(["tiny", "zero"] if ode else ["tiny", "zero", "big", "big"])
+            if case["hscale"] == "big":
+                case["hnorm"] = round(arng.uniform(5.0, 15.0), 3)
+                case["t"] = min(float(case["t"]), 2.0)
+        elif a == "zero_psi":
+            case["zero_psi"] = 1
+        elif a == "big_n":
+            case["n"] = arng.choice([16, 24, 32]) if not ode else 16
+            case["shape"] = _shapes_for(arng, case["n"])
+    return case
+
+
 def gen_cases(ctx):
     rng = ctx.rng
+    arng = ctx.subrng("audit")
     cases = []
     for mode in MODES:
         for n in range(1, 13):
@@ -190,10 +249,21 @@ def gen_cases(ctx):
                 cases.append(_mk_case(rng, mode, n, herm))
     for _ in range(ctx.n(1200, 12000)):
         cases.append(_mk_case(rng))
+    # input-space audit: every axis at least a few times with every kind of mode, then random combinations
+    for ax in ("call", "fwd_type", "t_type", "psi_dtype", "psi_ro", "h_dtype", "h_layout", "mag", "hscale", "zero_psi",
+               "big_n"):
+        for mode in ("fastest", "expm", "sparse", "RK45", "BDF", "chebyshev"):
+            cases.append(_audit_axes(_mk_case(arng, mode), arng, force=ax))
+    for _ in range(ctx.n(260, 2600)):
+        cases.append(_audit_axes(_mk_case(arng), arng))
+    cases.append({"kind": "enum"})
     fea_modes = MODES[:5] + ["none", "none", "Fastest", "foo", "RK45", "EXPM"]
     for _ in range(ctx.n(80, 600)):
         cases.append({"kind": "fea", "mode": rng.choice(fea_modes), "n": rng.randint(1, 12),
                       "seed": rng.randrange(10 ** 9)})
+    for _ in range(ctx.n(30, 300)):            # the documented default mode="fastest" left out; other vector types
+        cases.append({"kind": "fea", "mode": "fastest", "n": arng.randint(1, 12), "seed": arng.randrange(10 ** 9),
+                      "omit_mode": 1, "vec": arng.choice(["complex", "real", "int", "ro"])})
     return cases
 
 
@@ -208,12 +278,52 @@ def build(case):
         A = (A + A.conj().T) / 2
     nrm = np.linalg.norm(A, 2)
     H = A * (case["hnorm"] / nrm) if nrm > 0 else A
+    hd = case.get("h_dtype")
+    if hd == "int":                 # integer entries (int64); the norm is what it is, the duration is adapted below
+        B = nprng.integers(-1, 2, size=(n, n))
+        H = (B + B.T) if case["herm"] else B
+    elif hd == "f32":
+        H = H.real.astype(np.float32)
+        if case["herm"]:
+            H = (H + H.T) / np.float32(2)
+    elif hd == "c64":
+        H = H.astype(np.complex64)
+        if case["herm"]:
+            H = (H + H.conj().T) / np.complex64(2)
+    hs = case.get("hscale")
+    if hs == "tiny" and hd != "int":
+        H = H * H.dtype.type(1e-8)
+    elif hs == "zero":
+        H = np.zeros_like(H)
+    hl = case.get("h_layout")
+    if hl == "F":
+        H = np.asfortranarray(H)
+    elif hl == "T":                 # a transposed view of the transposed data: same values, other strides
+        H = np.ascontiguousarray(H.T).T
+    elif hl == "view":              # strided view into a larger buffer
+        big = np.zeros((2 * n, 2 * n), dtype=H.dtype)
+        big[1::2, ::2] = H
+        H = big[1::2, ::2]
+    elif hl == "ro":
+        H = H.copy()
+        H.flags.writeable = False
     shape = tuple(case["shape"])
-    if case.get("real_psi"):
+    pd = case.get("psi_dtype")
+    if pd == "int":
+        psi = nprng.integers(-3, 4, size=shape)
+    elif case.get("real_psi") or pd == "f32":
         psi = nprng.normal(size=shape)
     else:
         psi = nprng.normal(size=shape) + 1j * nprng.normal(size=shape)
     psi = np.asarray(psi)
+    if pd == "f32":
+        psi = psi.astype(np.float32)
+    elif pd == "c64":
+        psi = psi.astype(np.complex64)
+    if case.get("mag") and pd != "int":
+        psi = psi * psi.dtype.type(10.0 ** case["mag"])
+    if case.get("zero_psi"):
+        psi = np.zeros_like(psi)
     # memory layout of the input: C-contiguous, Fortran-ordered, or a transposed view (as produced by the lazy
     # leg permutation of the tensor dictionary); decided from the seed so that old replays keep their meaning
     layout = case["seed"] % 3 if psi.ndim >= 2 else 0
@@ -222,7 +332,23 @@ def build(case):
     elif layout == 2:
         perm = list(range(psi.ndim))[::-1]
         psi = np.ascontiguousarray(np.transpose(psi, perm)).transpose(perm)   # same values, non-contiguous view
+    if case.get("psi_ro"):
+        psi = np.array(psi, order="K")
+        psi.flags.writeable = False
     return H, psi
+
+
+def duration_of(case):
+    """The duration in the type the case asks for."""
+    t = case["t"]
+    tt = case.get("t_type")
+    if tt == "int":
+        return int(t)
+    if tt == "np64":
+        return np.float64(t)
+    if tt == "np32":
+        return np.float32(t)
+    return t
 
 
 def shape_str(shape):
@@ -242,11 +368,24 @@ def parse_idx(s):
     return () if s == "scalar" else tuple(int(x) for x in s.split(","))
 
 
+def _corpus():
+    import glob
+    import json
+    import os
+    from harness import common
+    out = []
+    for path in sorted(glob.glob(os.path.join(common.CORPUS_DIR, "C20", "*.json"))):
+        out.append(common.unjson(json.load(open(path))).get("case", {}))
+    return out
+
+
 def run(ctx):
-    cases = gen_cases(ctx)
+    cases = _corpus() + gen_cases(ctx)
     lines, owner = [], []
     shapes = {}
     for i, c in enumerate(cases):
+        if c["kind"] == "enum":
+            continue
         if c["kind"] == "evolve":
             lines.append(route_line(c))
             owner.append(("route", i))
@@ -270,13 +409,46 @@ def run(ctx):
     for i, c in enumerate(cases):
         if ctx.time_left() < 0:
             break
-        if c["kind"] == "evolve":
+        if c["kind"] == "enum":
+            run_case(ctx, c)
+        elif c["kind"] == "evolve":
             run_case(ctx, c, (model[i], unr[tuple(c["shape"])]))
         else:
             run_case(ctx, c, (model[i], None))
 
 
+def _case_enum(ctx, case):
+    """TimeEvoMode.is_scipy / fastest_equivalent / str on every member (the dispatch of time_evolve rests on them)."""
+    _, _, _, TimeEvoMode = _mods()
+    probs = []
+    members = {m.value: m for m in TimeEvoMode}
+    if sorted(members) != sorted(MODES):
+        probs.append(f"members {sorted(members)} != documented {sorted(MODES)}")
+    for v, m in members.items():
+        ctx.count(("enum", v), nontrivial=True)
+        ctx.tally("enum_member", v)
+        want = v in SCIPY_MODES
+        try:
+            if bool(m.is_scipy()) != want:
+                probs.append(f"TimeEvoMode.{m.name}.is_scipy() = {m.is_scipy()} (an ODE solver of scipy: {want})")
+            if str(m) != v:
+                probs.append(f"str(TimeEvoMode.{m.name}) = {str(m)!r} != {v!r}")
+        except Exception as e:      # noqa: BLE001
+            probs.append(f"TimeEvoMode.{m.name}: {type(e).__name__}: {e}")
+    try:
+        fe = TimeEvoMode.fastest_equivalent()
+        if fe.value != "chebyshev" or fe.is_scipy():
+            probs.append(f"fastest_equivalent() = {fe} (documented: the expm_multiply mode, not an ODE solver)")
+    except Exception as e:          # noqa: BLE001
+        probs.append(f"fastest_equivalent(): {type(e).__name__}: {e}")
+    if probs:
+        ctx.oracle_fail(case, "; ".join(probs[:4]))
+
+
 def run_case(ctx, case, model=None):
+    if case["kind"] == "enum":
+        _case_enum(ctx, case)
+        return
     if case["kind"] == "evolve":
         if model is None:
             outs = ctx.lean.batch([route_line(case)] + unravel_lines(tuple(case["shape"])))
@@ -290,21 +462,23 @@ def run_case(ctx, case, model=None):
 
 # ------------------------------------------------------------------ observed route
 
-def _gauss(z: complex) -> str:
-    """canonical text of a complex scalar: Gaussian integer `re,im` when it is one to 1e-12"""
+def _gauss(z: complex, tol: float = 1e-12) -> str:
+    """canonical text of a complex scalar: Gaussian integer `re,im` when it is one to `tol`"""
     re, im = round(z.real), round(z.imag)
-    if abs(z - complex(re, im)) <= 1e-12:
+    if abs(z - complex(re, im)) <= tol:
         return f"{re},{im}"
     return f"{z.real:.6g},{z.imag:.6g}"
 
 
-def _coeff_of(G, H, divide_by=None):
+def _coeff_of(G, H, divide_by=None, tol: float = 1e-12):
     """scalar c with G = c * H (Frobenius projection), None when G is not a multiple of H"""
+    H = np.asarray(H, dtype=complex)
+    G = np.asarray(G, dtype=complex)
     hh = np.vdot(H, H)
     if hh == 0:
         return None
     c = np.vdot(H, G) / hh
-    if np.linalg.norm(G - c * H) > 1e-12 * np.linalg.norm(H) * max(1.0, abs(c)):
+    if np.linalg.norm(G - c * H) > tol * np.linalg.norm(H) * max(1.0, abs(c)):
         return None
     if divide_by is not None:
         c = c / divide_by
@@ -313,7 +487,10 @@ def _coeff_of(G, H, divide_by=None):
 
 def observed_route(events, case, H, psi, out):
     """Canonical route string of the implementation + the flat result the routine returned."""
-    t, n = case["t"], case["n"]
+    t, n = float(duration_of(case)), case["n"]
+    # single-precision inputs: the generator the routine receives is a multiple of H to single precision only
+    ctol = 1e-5 if (case.get("h_dtype") in ("f32", "c64") or case.get("t_type") == "np32") else 1e-12
+    zero_h = not np.any(H)
     top = [e for e in events if e[0] in ("solve_ivp", "fast_exp_action")]
     low = [e for e in events if e[0] in ("expm", "eigsh", "expm_multiply", "expm_sparse")]
     notes = []
@@ -329,8 +506,11 @@ def observed_route(events, case, H, psi, out):
             e = np.zeros(n, dtype=complex)
             e[j] = 1.0
             G[:, j] = rec["fun"](0.0, e)
-        c = _coeff_of(G, H)
-        coeff = _gauss(c) if c is not None else "not-a-multiple-of-H"
+        c = _coeff_of(G, H, tol=ctol)
+        coeff = _gauss(c, ctol) if c is not None else "not-a-multiple-of-H"
+        if zero_h:
+            coeff_known = False
+            coeff = "*" if not np.any(G) else "nonzero-generator-for-H=0"
         ts = tuple(float(x) for x in rec["t_span"])
         sol = rec["sol"]
         tu = "span" if ts == (0.0, float(t)) else f"span{ts}"
@@ -355,12 +535,12 @@ def observed_route(events, case, H, psi, out):
     else:
         mode_arg = rec["kwargs"].get("mode", rec["args"][0] if rec["args"] else "fastest(default)")
         E = rec["E"]
-        if t != 0:
-            c = _coeff_of(E, H, divide_by=t)
-            coeff = _gauss(c) if c is not None else "not-a-multiple-of-H"
+        if t != 0 and not zero_h:
+            c = _coeff_of(E, H, divide_by=t, tol=ctol)
+            coeff = _gauss(c, ctol) if c is not None else "not-a-multiple-of-H"
         else:
             coeff_known = False
-            coeff = "*" if not np.any(E) else "nonzero-exponent-at-t=0"
+            coeff = "*" if not np.any(E) else "nonzero-exponent-at-t=0-or-H=0"
         tu = "factor"
         y0 = "asis" if rec["v"].dtype == psi.dtype else f"cast:{rec['v'].dtype}"
         if not np.array_equal(rec["v"], psi.flatten()):
@@ -409,15 +589,38 @@ def _strip_coeff(s):
 
 # ------------------------------------------------------------------ evolve case
 
-def _call(time_evolve, TimeEvoMode, psi, H, t, forward, mode):
+def _call(time_evolve, TimeEvoMode, psi, H, t, forward, mode, form="pos", fwd_type=None):
+    """form: pos (all positional) | kw (forward / mode by keyword) | allkw (every argument by keyword) |
+    omit (arguments equal to their documented defaults forward=True, mode=TimeEvoMode.FASTEST are left out)."""
+    fw = forward
+    if fwd_type == "int":
+        fw = 1 if forward else 0
+    elif fwd_type == "npbool":
+        fw = np.bool_(forward)
+    m = TimeEvoMode(mode)
     with warnings.catch_warnings():
         warnings.simplefilter("ignore")
-        return time_evolve(psi, H, t, forward, TimeEvoMode(mode))
+        if form == "pos":
+            return time_evolve(psi, H, t, fw, m)
+        if form == "kw":
+            return time_evolve(psi, H, t, forward=fw, mode=m)
+        if form == "allkw":
+            return time_evolve(mode=m, forward=fw, time_difference=t, hamiltonian=H, psi=psi)
+        if form == "omit":
+            kw = {}
+            if not forward:
+                kw["forward"] = fw
+            if mode != "fastest":
+                kw["mode"] = m
+            return time_evolve(psi, H, t, **kw)
+        raise ValueError(form)
 
 
 def _case_evolve(ctx, case, model_route, model_unravel):
     te, su, time_evolve, TimeEvoMode = _mods()
-    mode, n, t, fwd, herm = case["mode"], case["n"], case["t"], case["forward"], case["herm"]
+    mode, n, fwd, herm = case["mode"], case["n"], case["forward"], case["herm"]
+    t = duration_of(case)
+    form, fwd_type = case.get("call", "pos"), case.get("fwd_type")
     H, psi = build(case)
     psi0 = psi.copy()
     H0 = H.copy()
@@ -433,12 +636,22 @@ def _case_evolve(ctx, case, model_route, model_unravel):
     ctx.tally("matrix", ("hermitian" if herm else "general") + ("/real" if case.get("real_h") else "/complex"))
     ctx.tally("psi_dtype", "real" if case.get("real_psi") else "complex")
     ctx.tally("direction", "forward" if fwd else "backward")
+    ctx.tally("call_form", form + ("" if form != "omit" else
+                                   f" ({'forward ' if fwd else ''}{'mode' if mode == 'fastest' else ''})".replace(" )", ")")))
+    ctx.tally("forward_type", fwd_type or "bool")
+    ctx.tally("duration_type", case.get("t_type", "float"))
+    ctx.tally("psi_element_type", case.get("psi_dtype") or ("real" if case.get("real_psi") else "complex"))
+    ctx.tally("psi_flags", ("read-only" if case.get("psi_ro") else "writeable") + ("/zero" if case.get("zero_psi") else ""))
+    ctx.tally("matrix_element_type", case.get("h_dtype") or ("real" if case.get("real_h") else "complex"))
+    ctx.tally("matrix_layout", case.get("h_layout", "C"))
+    ctx.tally("matrix_scale", case.get("hscale", "||H|| in [0.3, 1.5]"))
+    ctx.tally("psi_magnitude_exponent", case.get("mag", 0))
     ctx.sample(case, 5)
 
     rec = Recorder()
     try:
         with rec:
-            out = _call(time_evolve, TimeEvoMode, psi, H, t, fwd, mode)
+            out = _call(time_evolve, TimeEvoMode, psi, H, t, fwd, mode, form, fwd_type)
     except Exception as e:          # noqa: BLE001
         ctx.tally("exception", f"{mode}:{type(e).__name__}")
         ctx.oracle_fail(case, f"time_evolve raised {type(e).__name__}: {str(e)[:160]} "
@@ -476,18 +689,22 @@ def _case_evolve(ctx, case, model_route, model_unravel):
     if out.shape != shape:
         ctx.oracle_fail(case, f"shape: result has shape {out.shape}, psi has {shape} (mode={mode})")
         return
-    Uf, Ub = reference_propagators(H, t, herm)
+    Hc = np.asarray(H, dtype=complex)
+    tf = float(t)
+    Uf, Ub = reference_propagators(Hc, tf, herm)
     if herm:                        # the two independent references agree (contract of eigh / own Taylor)
-        Ut = taylor_expm(-1j * t * np.asarray(H, dtype=complex))
-        if np.linalg.norm(Ut - Uf) <= 1e-11:
+        Ut = taylor_expm(-1j * tf * Hc)
+        if np.linalg.norm(Ut - Uf) <= 1e-11 * max(1.0, float(np.linalg.norm(Hc, 2)) * tf):
             ctx.hyp_validated += 1
         else:
             raise AssertionError("harness: eigh and Taylor references disagree")
     U, Uinv = (Uf, Ub) if fwd else (Ub, Uf)
     ref = (U @ psi.reshape(-1)).reshape(shape)
-    npsi = np.linalg.norm(psi)
+    npsi = float(np.linalg.norm(np.asarray(psi, dtype=complex)))     # in double precision also for single inputs
     nU, nUi = np.linalg.norm(U, 2), np.linalg.norm(Uinv, 2)
     tol = TOL[mode]
+    if case.get("h_dtype") in ("f32", "c64"):
+        tol = max(tol, 1e-5)        # the generator is formed in single precision
     err = np.linalg.norm(out - ref)
     scale = nU * npsi
     rel = err / scale if scale > 0 else err
@@ -499,15 +716,15 @@ def _case_evolve(ctx, case, model_route, model_unravel):
         probs.append(f"value: ||out - exp({'-' if fwd else '+'}iHt)psi|| / (||U|| ||psi||) = {rel:.3e} > {tol:g}")
     else:
         ctx.hyp_validated += 1      # contract of the selected routine held on this live call
-    if t == 0 and not np.allclose(out, psi, rtol=0, atol=1e-12 * max(1.0, npsi)):
+    if t == 0 and not np.allclose(out, psi, rtol=0, atol=1e-12 * (npsi if case.get("mag") else max(1.0, npsi))):
         probs.append("zero duration does not return psi")
     if herm:
         dn = abs(np.linalg.norm(out) - npsi)
         if dn > tol * npsi:
-            probs.append(f"norm: | ||out|| - ||psi|| | / ||psi|| = {dn / npsi:.3e} > {tol:g} for Hermitian H")
+            probs.append(f"norm: | ||out|| - ||psi|| | = {dn:.3e} > {tol:g} ||psi|| = {tol * npsi:.3e} for Hermitian H")
     # forward then backward (resp. backward then forward)
     try:
-        back = np.asarray(_call(time_evolve, TimeEvoMode, out, H, t, not fwd, mode))
+        back = np.asarray(_call(time_evolve, TimeEvoMode, out, H, t, not fwd, mode, form, fwd_type))
         if back.shape != shape:
             probs.append(f"round trip: shape {back.shape}")
         else:
@@ -517,7 +734,9 @@ def _case_evolve(ctx, case, model_route, model_unravel):
     except Exception as e:          # noqa: BLE001
         probs.append(f"round trip raised {type(e).__name__}: {str(e)[:100]}")
     if probs:
-        ctx.oracle_fail(case, f"mode={mode} n={n} shape={list(shape)} t={t} forward={fwd} herm={herm}: "
+        extra = "".join(f" {k}={case[k]}" for k in ("call", "fwd_type", "t_type", "psi_dtype", "psi_ro", "h_dtype",
+                                                     "h_layout", "mag", "hscale", "zero_psi") if case.get(k))
+        ctx.oracle_fail(case, f"mode={mode} n={n} shape={list(shape)} t={t} forward={fwd} herm={herm}{extra}: "
                         + "; ".join(probs[:4]), finding=known)
 
 
@@ -532,16 +751,25 @@ def _case_fea(ctx, case, model_out):
     nrm = np.linalg.norm(A, 2)
     E = A / nrm if nrm > 0 else A
     v = nprng.normal(size=n) + 1j * nprng.normal(size=n)
+    vt = case.get("vec", "complex")
+    if vt == "real":
+        v = v.real.copy()
+    elif vt == "int":
+        v = nprng.integers(-3, 4, size=n)
+    elif vt == "ro":
+        v.flags.writeable = False
     known = "F-C20" if (mode == "eigsh" and n >= 4) else None
-    ctx.count(("fea", mode, n), nontrivial=mode not in ("fastest", "chebyshev"), corr=True)
-    ctx.tally("fea_mode", mode if mode else "<empty>")
+    ctx.count(("fea", mode, n, bool(case.get("omit_mode")), vt), nontrivial=mode not in ("fastest", "chebyshev") or
+              bool(case.get("omit_mode")), corr=True)
+    ctx.tally("fea_mode", (mode if mode else "<empty>") + (" (argument omitted)" if case.get("omit_mode") else ""))
+    ctx.tally("fea_vector", vt)
     rec = Recorder()
     exc = None
     out = None
     try:
         with rec, warnings.catch_warnings():
             warnings.simplefilter("ignore")
-            out = su.fast_exp_action(E, v, mode=mode)
+            out = su.fast_exp_action(E, v) if case.get("omit_mode") else su.fast_exp_action(E, v, mode=mode)
     except NotImplementedError:
         exc = "NotImplementedError"
     except Exception as e:          # noqa: BLE001
@@ -584,11 +812,16 @@ def _case_fea(ctx, case, model_out):
 
 
 def shrink(case):
+    if case["kind"] == "enum":
+        return
     if case["kind"] != "evolve":
         if case["n"] > 1:
             yield dict(case, n=case["n"] - 1)
         return
     n = case["n"]
+    for k in ("call", "fwd_type", "t_type", "psi_dtype", "psi_ro", "h_dtype", "h_layout", "mag", "hscale", "zero_psi"):
+        if case.get(k):
+            yield {kk: vv for kk, vv in case.items() if kk != k}
     if len(case["shape"]) != 1:
         yield dict(case, shape=[n])
     for m in (n // 2, n - 1):
